@@ -672,9 +672,18 @@ func (env *SpecEnv) evalCall(x *SCall) Val {
 		return Sc{Max(env.evalInt(x.Args[0]), env.evalInt(x.Args[1]))}
 	case "be64", "be16", "be32":
 		argn(2)
-		arr, off, _ := env.bytesView(env.eval(x.Args[0]))
+		av := env.eval(x.Args[0])
+		arr, off, _ := env.bytesView(av)
 		n := map[string]int{"be64": 8, "be16": 2, "be32": 4}[name]
-		return Sc{be(arr, Add(off, env.evalInt(x.Args[1])), n)}
+		pos := Add(off, env.evalInt(x.Args[1]))
+		if sc, isStr := av.(Sc); isStr && sc.T.Sort == SStr && !strings.Contains(arr.S, "!q") && !strings.Contains(pos.S, "!q") {
+			// the bytes of a byte string are bytes (stated for the ground bytes read here)
+			for k := 0; k < n; k++ {
+				b := Select(arr, Add(pos, IntLit(int64(k))))
+				in.assumeGlobal(And(Le(IntLit(0), b), Le(b, IntLit(255))))
+			}
+		}
+		return Sc{be(arr, pos, n)}
 	case "has":
 		argn(2)
 		m := env.eval(x.Args[0])
@@ -754,6 +763,12 @@ func (env *SpecEnv) evalCall(x *SCall) Val {
 		if !ok {
 			c = in.newCell("g_"+lit.V+"("+trunc(key, 20)+")", CMap, dbMapType)
 			in.dbCells[ck] = c
+			if po, isPtr := env.eval(x.Args[1]).(PtrV); isPtr {
+				if in.ghostOwner == nil {
+					in.ghostOwner = map[*Cell]*Cell{}
+				}
+				in.ghostOwner[c] = po.To
+			}
 		}
 		return MapV{M: c, Nil: TFalse}
 	case "dbhealthy":
